@@ -3,6 +3,7 @@
 package tlast
 
 func init() {
+	verifRegister("VerifC25Listing", VerifC25Listing)
 	verifRegister("VerifC21RoundTrip", VerifC21RoundTrip)
 	verifRegister("VerifC23Tags", VerifC23Tags)
 	verifRegister("VerifC25Canonical", VerifC25Canonical)
@@ -330,6 +331,49 @@ func verifFieldsApplied(fs []Field) bool {
 		}
 	}
 	return false
+}
+
+// VerifC25Listing: the WHOLE listing (TL.Generate2TL) has exactly one line per constructor and function of the schema, carrying
+// its effective tag, in schema order after the five fixed builtin-wrapper lines - also for namespaced combinators whose local
+// names coincide with the builtin wrappers' names. Explicit tags symbolic.
+func VerifC25Listing() {
+	text := "int#a8509bda ? = Int;\nlong#22076cba ? = Long;\nstring#b5286e24 ? = String;\ngeo.int#11223344 v:int = geo.Int;\ntext.string#00000007 s:string = text.String;\nbig.long {n:#} v:n*[long] = big.Long n;\nplain.a x:int = plain.A;\n---functions---\n@read geo.long#55667788 x:int = geo.Int;\n@any geo.double x:int = Int;\n"
+	tl, err := ParseTLFile(text, "s.tl", LexerOptions{LexerLanguage: TL1, AllowBuiltin: true})
+	if err != nil {
+		panic("harness skeleton does not parse: " + err.Error())
+	}
+	for _, c := range tl.Combinators() {
+		if c.Construct.IDExplicit && !c.Builtin {
+			c.Construct.ID = verifU32()
+			verifAssume(c.Construct.ID != 0)
+		}
+	}
+	listing := tl.Generate2TL()
+	var lines []string
+	start := 0
+	for i := 0; i < len(listing); i++ {
+		if listing[i] == '\n' {
+			lines = append(lines, listing[start:i])
+			start = i + 1
+		}
+	}
+	verifCover("listed")
+	want := 5
+	for _, c := range tl.Combinators() {
+		if c.Builtin {
+			continue // the five wrappers are the fixed header lines
+		}
+		want++
+		head := c.canonicalFormWithTag()
+		found := 0
+		for _, l := range lines {
+			if len(l) >= len(head) && l[:len(head)] == head {
+				found++
+			}
+		}
+		verifAssert(found == 1, "listing-has-exactly-one-line-per-combinator:"+c.Construct.Name.String())
+	}
+	verifAssert(len(lines) == want, "listing-has-no-other-lines")
 }
 
 // VerifC25Canonical: one line per combinator carrying its effective tag; each line + ';' re-parses to the same combinator.
